@@ -59,8 +59,16 @@ type nodeOpts map[string]interface{}
 
 func (m nodeOpts) Get(k string) interface{} { return m[k] }
 
+// the database behind the most recently built app (app mode restarts a node over it)
+var lastBareDB dbm.DB
+
 func newBareApp() (*c4eapp.App, c4eapp.GenesisState) {
-	db := dbm.NewMemDB()
+	return newBareAppOn(dbm.NewMemDB())
+}
+
+// newBareAppOn builds the application over db; like a node process starting up it loads the latest committed version, if any.
+func newBareAppOn(db dbm.DB) (*c4eapp.App, c4eapp.GenesisState) {
+	lastBareDB = db
 	encoding := c4eapp.MakeEncodingConfig()
 	period := uint(0)
 	if v := os.Getenv("VERIF_INV_CHECK_PERIOD"); v != "" {
